@@ -19,7 +19,7 @@ Reading guide
 import EPV.Lemmas.ParserState
 import EPV.Lemmas.ParserStateLexer
 import EPV.Lemmas.ParserStateXErr
-import EPV.Lemmas.ParserStateComments
+import EPV.Lemmas.ParserStateComments2
 namespace EPV.C03
 open EPV.PState EPV.Lexer EPV.XErr
 
@@ -131,40 +131,43 @@ theorem advance_consumes (tb : Table) (o : Oracles) (symbols : List String) (c :
     ∃ pre, c.tokens = pre ++ (advance tb o symbols c).2.tokens :=
   EPV.Lexer.advance_consumes tb o symbols c
 
-/-- **comment skipping terminates and fails only with coded errors** (`XPath2Parser.advance`,
-xpath2_parser.py:220-243, with `Parser.advance_until`, tdop.py:573-611): for every cursor whose
-pending matches come from the tokenizer pattern and every expected-symbols argument, with fuel above
-the number of pending matches the model never runs out of fuel — neither in the `while comment_level`
-loop (arbitrarily nested, unterminated or unbalanced comments) nor in the recursive `advance(':)')` —
-and the outcome is a normal return or XPST0003 / XPST0017 / FORG0006. -/
-theorem advance2_total (tb : Table) (o : Oracles) (symbols : List String) (c : Cursor Tok Match)
+/-- **comment skipping terminates and fails only with coded errors** (the live `XPath2Parser.advance`,
+xpath2_parser.py, since commit 1bbf01f: the comment body is scanned on the raw source and the rest is
+re-tokenized): for every source text, every cursor whose pending matches come from the tokenizer pattern,
+every expected-symbols argument and every re-tokenization oracle that returns pattern matches lying after
+the requested offset inside the source (`OracleOK`): the model never runs out of fuel — neither in the
+`while comment_level` scan (nested, unterminated, unbalanced comments) nor in the outer
+`while next_token.symbol == '(:'` loop (consecutive comments) — the `assert next_match is not None` cannot
+fail, and the outcome is a normal return or XPST0003 / XPST0017. -/
+theorem advance3_total (tb : Table) (o : Oracles) (src : List Char) (tokFrom : Nat → List Match)
+    (ho : OracleOK src tokFrom) (symbols : List String) (c : Cursor Tok Match)
     (hs : SpecialsOK tb = true) (hm : ∀ m ∈ c.tokens, FromPattern m = true) :
-    (advance2 tb o (c.tokens.length + 1) symbols c).1 = .ok () ∨
-    ∃ e, (advance2 tb o (c.tokens.length + 1) symbols c).1 = .error e ∧ LexErr e :=
-  (advance2_spec tb o (specials_of_ok hs) (c.tokens.length + 1) symbols c hm (Nat.lt_succ_self _)).1
+    (advance3 tb o src tokFrom symbols c).1 = .ok () ∨
+    ∃ e, (advance3 tb o src tokFrom symbols c).1 = .error e ∧ LexErr e :=
+  advance3_spec tb o (specials_of_ok hs) src tokFrom ho symbols c hm
 
-/-- the comment loop alone: at most `pending matches + 2` iterations, whatever the nesting level -/
-theorem comment_loop_terminates (tb : Table) (level : Nat) (c : Cursor Tok Match) (hs : SpecialsOK tb = true) :
-    (commentLoop tb (c.tokens.length + 2) level c).1 = .ok () ∨
-    ∃ e, (commentLoop tb (c.tokens.length + 2) level c).1 = .error e ∧ LexErr e :=
-  (commentLoop_spec tb (specials_of_ok hs) (c.tokens.length + 2) level c
-    (by unfold mu; split <;> omega)).1
+/-- the raw-source scanner alone: with `len + 1` fuel it always answers, and an offset it returns for a
+positive nesting level lies at least two characters further and inside the source -/
+theorem comment_scan_terminates (src : List Char) (level pos : Nat) :
+    commentScan src (src.length + 1) level pos ≠ none ∧
+    ∀ p, commentScan src (src.length + 1) level pos = some (some p) →
+      (level = 0 ∧ p = pos) ∨ (pos + 2 ≤ p ∧ p ≤ src.length) :=
+  commentScan_spec src (src.length + 1) level pos (by omega)
 
-/-- test on literals: `1 (: a (: b :) c :) 2`, an unterminated comment, and `:(:` -/
+/-- `advance_until` (still used by the `Q{…}` literal): it raises a coded error or returns having
+consumed matches only -/
+theorem advance_until_total (tb : Table) (stops : List String) (c : Cursor Tok Match) (hs : SpecialsOK tb = true) :
+    (advanceUntil tb stops c).1 = .ok () ∨ ∃ e, (advanceUntil tb stops c).1 = .error e ∧ LexErr e := by
+  rcases advanceUntil_spec tb stops (specials_of_ok hs) c with ⟨h, _⟩ | ⟨e, h, he, _⟩
+  · exact .inl h
+  · exact .inr ⟨e, h, he⟩
+
+/-- test on literals: `1(: a (: b :) c :)2`, `(:::)3`, an unterminated comment -/
 example :
-    let tb : Table := [("(string)", "literal"), ("(float)", "literal"), ("(decimal)", "literal"),
-      ("(integer)", "literal"), ("(name)", "name"), ("(unknown)", "symbol"), ("(invalid)", "symbol"),
-      ("(end)", "symbol"), ("(:", "symbol"), (":)", "symbol"), (":", "symbol")]
-    let o := pyOracles (fun _ => true)
-    let start : Tok := ⟨"(start)", "symbol", "(start)"⟩
-    let sym (s : String) : Match := ⟨s, none, some s, none, none⟩
-    let lit (s : String) : Match := ⟨s, some s, none, none, none⟩
-    let nm (s : String) : Match := ⟨s, none, none, some s, none⟩
-    let run (ms : List Match) := lexAll2 tb o (ms.length + 2) { Cursor.init start with tokens := ms }
-    run [lit "1", sym "(:", nm "a", sym "(:", nm "b", sym ":)", nm "c", sym ":)", lit "2"]
-      = (["(integer)", "(integer)", "(end)"], none, "(end)") ∧
-    run [lit "1", sym "(:", nm "a"] = (["(integer)"], some (.coded "XPST0003"), "(end)") ∧
-    run [sym ":", sym "(:", sym ":)"] = ([":"], some (.coded "XPST0003"), "(:") := by decide
+    commentScan "1(: a (: b :) c :)2".toList 20 1 3 = some (some 18) ∧
+    commentScan "(:::)3".toList 7 1 2 = some (some 5) ∧
+    commentScan "(: (: :)".toList 9 1 2 = some none ∧
+    commentScan "(: ':) x".toList 9 1 2 = some (some 6) := by decide
 
 /-- the hypotheses are satisfiable and all branches are live (test on literals) -/
 example :
@@ -173,18 +176,18 @@ example :
       ("(end)", "symbol"), ("+", "operator")]
     let o := pyOracles (fun _ => false)
     SpecialsOK tb = true ∧
-    (classify tb o ⟨"12", some "12", none, none, none⟩).tok.map (·.symbol) = some "(integer)" ∧
-    (classify tb o ⟨"+", none, some "+", none, none⟩).tok.map (·.symbol) = some "+" ∧
-    (classify tb o ⟨"#", none, none, none, some "#"⟩).tok.map (·.symbol) = some "(unknown)" ∧
-    (classify tb o ⟨"f", none, some "f", none, none⟩).err = some (.coded "XPST0003") := by decide
+    (classify tb o ⟨"12", some "12", none, none, none, 0⟩).tok.map (·.symbol) = some "(integer)" ∧
+    (classify tb o ⟨"+", none, some "+", none, none, 0⟩).tok.map (·.symbol) = some "+" ∧
+    (classify tb o ⟨"#", none, none, none, some "#", 0⟩).tok.map (·.symbol) = some "(unknown)" ∧
+    (classify tb o ⟨"f", none, some "f", none, none, 0⟩).err = some (.coded "XPST0003") := by decide
 
 /-- F03d, kernel-checked on the model of the pinned integer branch: when `int(literal)` fails, a bare
 `ValueError` escaped (the repaired branch raises XPST0003, see `classify_total`). -/
 theorem pinned_int_literal_escapes :
     let tb : Table := [("(integer)", "literal"), ("(invalid)", "symbol")]
     let o : Oracles := ⟨fun _ => false, fun _ => true, fun _ => true, fun _ => false⟩
-    (classifyPinned tb o ⟨"1", some "1", none, none, none⟩).err = some (.other "ValueError") ∧
-    (classify tb o ⟨"1", some "1", none, none, none⟩).err = some (.coded "XPST0003") := by decide
+    (classifyPinned tb o ⟨"1", some "1", none, none, none, 0⟩).err = some (.other "ValueError") ∧
+    (classify tb o ⟨"1", some "1", none, none, none, 0⟩).err = some (.coded "XPST0003") := by decide
 
 end lexer
 
